@@ -500,10 +500,14 @@ fn jobs(thorough: bool) -> Vec<(Arc<Shape>, Cfg)> {
             mk("seq/n32/f0/s2", Fid::F128, Hid::Blake3_256, 7, 8, 2, 8, 15, (1, 1)),
         ]);
     }
-    if thorough {
-        // the same transcripts over a second trace
-        let more: Vec<(Arc<Shape>, Cfg)> = v.iter().map(|(s, c)| (Arc::new(Shape { seed: 7, ..(**s).clone() }), c.clone())).collect();
-        v.extend(more);
+    {
+        // the same transcripts over further traces (other values, other query positions): one in the
+        // quick tier, eight in the thorough tier
+        let base = v.clone();
+        let seeds: &[u64] = if thorough { &[7, 8, 9, 10, 11, 12, 13, 14] } else { &[7] };
+        for &seed in seeds {
+            v.extend(base.iter().map(|(s, c)| (Arc::new(Shape { seed, ..(**s).clone() }), c.clone())));
+        }
     }
     v
 }
